@@ -38,7 +38,7 @@ class Ob:
     """one proof obligation = one CBMC query (+ its witness twin)"""
     def __init__(s, props, name, unit, harness, entry, defs=(), unwind=4, unwindset=(), backend='minisat',
                  tier='quick', cap=150, mem_gb=10, flags=(), witness=True, validate=8, desc='', bound='',
-                 ptr_overflow=True, objbits=None, kf=None, hunwind=40, lunwind=(), fs='default'):
+                 ptr_overflow=False, objbits=None, kf=None, hunwind=40, lunwind=(), fs='default'):
         s.props = [props] if isinstance(props, str) else list(props)
         s.name, s.unit, s.harness, s.entry = name, unit, harness, entry
         s.defs, s.unwind, s.unwindset, s.backend = list(defs), unwind, list(unwindset), backend
